@@ -163,6 +163,7 @@ func shapeOracle(o *Out, input string) {
 }
 
 func emitParse(o *Out, max uint64, input string) string {
+	publicCross(o, max, input)
 	ans := realParse(max, []byte(input))
 	o.emit(fmt.Sprintf("parse %d %s", max, hx(input)), ans)
 	switch {
@@ -234,9 +235,14 @@ func fragParseTokens(g *Gen, n int, o *Out) {
 }
 
 var pathPool = [][]string{{"a"}, {"foo"}, {"foo", "bar"}, {"a", "0"}, {"a", "b", "c"}, {"x", "key with space"}, {"m", "co:lon"}, {"a/b"}, {"a/b", "c"},
-	{"s", "1", "x"}, {"notes"}, {"anything", "allow"}, {"inside"}, {"order", "island"}, {"ashes"}, {"matchesx"}, {"containsx", "emptyx"}, {"note", "android"}, {"not"}, {"all"}, {"in", "x"}, {"é"}, {"a", "q\"t"}, {"a", "b`t"}, {"a", ""}, {"0"}, {"a", "~tilde"}, {"a", "sl/ash"}, {"X", "Y_z"}, {"any", "b"}}
+	{"s", "1", "x"}, {"notes"}, {"anything", "allow"}, {"inside"}, {"order", "island"}, {"ashes"}, {"matchesx"}, {"containsx", "emptyx"}, {"note", "android"}, {"not"}, {"all"}, {"in", "x"}, {"é"}, {"a", "q\"t"}, {"a", "b`t"}, {"a", ""}, {"0"}, {"a", "~tilde"}, {"a", "sl/ash"}, {"X", "Y_z"}, {"any", "b"},
+	// parts that a path-cleaning or URL-minded join would fold: dot segments, empty and slash-only parts, escapes
+	{"a", "..", "b"}, {"a", ".", "b"}, {"ports", ".."}, {"a/", "b"}, {".."}, {"."}, {"a", "...", "-"}, {"a~b", "~"}, {"/"}, {"a", "/", "b"}, {"a", "", "b"}, {"a", "b", ""},
+	{"a", "~1"}, {"a", "~0"}, {"a", "%2F"}, {"a", "b c"}, {"A", "a"}, {"a", "010"}, {"a", "007", "x"}, {"a", "-1"}, {"a", "+1"}, {"a", "1_0"}, {"a", "0x1"}}
 var rawPool = []string{"1", "0", "-1", "1.5", "foo", "a b", "", "true", "/usr/bin", "/a", "a/b", "x.y", "q\"t", "b`t", "b\\s", "é日本", "new\nline", "tab\t", "\x00", "\xff\xfe",
-	"007", "1e3", "0x10", "(", "[z-a]", "a**", "a{2,1}", "not", "in", "`\r`", "a.0", "-", "~", "12.50", "-0", "a\"`b", "/", "//", "/a b", "/é/1", "contains"}
+	"007", "1e3", "0x10", "(", "[z-a]", "a**", "a{2,1}", "not", "in", "`\r`", "a.0", "-", "~", "12.50", "-0", "a\"`b", "/", "//", "/a b", "/é/1", "contains",
+	// bare words that begin with a keyword (in value-first position they stand where an operand may start)
+	"notable", "nothing", "android", "inside", "orx", "anyone", "allx", "isx", "matchesx", "island", "note.book", "notify", "containsx", "inx", "asx"}
 
 func (g *Gen) randTree(depth int) GExpr {
 	r := g.r.Intn(100)
